@@ -197,6 +197,22 @@ Proof.
   - cbn zeta. repeat split; reflexivity.
 Qed.
 
+Lemma apply_poison_frame : forall c sid rid b v y,
+  let y' := apply_poison c sid rid b v y in
+  y_sess y' = y_sess y /\ y_asn y' = y_asn y /\ y_cid y' = y_cid y /\ y_cl4 y' = y_cl4 y /\ y_cl6 y' = y_cl6 y /\
+  (forall j, sid <> j -> rib_of y' j = rib_of y j /\ adjin_of y' j = adjin_of y j).
+Proof.
+  intros c sid rid b v y. unfold apply_poison. destruct (c_v4 c); cbn [negb]; cbn zeta.
+  - repeat split; try reflexivity.
+    + unfold rib_of. cbn.
+      assert (Hn : (sid =? j) = false) by (destruct (sid =? j) eqn:Q; [apply N.eqb_eq in Q; congruence | reflexivity]).
+      destruct (c_imp c); destruct (if b then 0 <? rc_count (y_asn y) v else 0 <? rc_count (y_cid y) v);
+        try rewrite filter_app; cbn; try rewrite Hn; try rewrite app_nil_r; apply rib_of_without_other; exact H.
+    + unfold adjin_of. cbn. rewrite alist_get_set.
+      destruct (sid =? j) eqn:Q; [apply N.eqb_eq in Q; congruence | reflexivity].
+  - repeat split; reflexivity.
+Qed.
+
 (* ---------------------------------------------------------------- well-formed action lists *)
 
 (* Init only when detached, UPDATE processing only when attached *)
@@ -206,6 +222,7 @@ Fixpoint outs_ok (att : bool) (os : list out) : bool :=
   | Init :: r => negb att && outs_ok true r
   | Uninit :: r => outs_ok false r
   | ProcessedUpdate _ _ :: r => att && outs_ok att r
+  | ProcessedPoison _ _ _ :: r => att && outs_ok att r
   | _ :: r => outs_ok att r
   end.
 
@@ -238,6 +255,7 @@ Section Fold.
     - rewrite IH. reflexivity.
     - rewrite IH. unfold apply_uninit. destruct att; reflexivity.
     - rewrite IH. apply (apply_update_frame c sid ann wd y).
+    - rewrite IH. apply (apply_poison_frame c sid rid by_asn v y).
   Qed.
 
   (* other sessions' routes and Adj-RIB-Ins are untouched *)
@@ -255,6 +273,8 @@ Section Fold.
       unfold rib_of, adjin_of. cbn. rewrite alist_get_set, Hn. split; [apply rib_of_without_sess_other; exact H | reflexivity].
     - destruct (IH att (apply_update c sid ann wd y) j H) as [A B]. rewrite A, B.
       apply (apply_update_frame c sid ann wd y). exact H.
+    - destruct (IH att (apply_poison c sid rid by_asn v y) j H) as [A B]. rewrite A, B.
+      apply (apply_poison_frame c sid rid by_asn v y). exact H.
   Qed.
 
   (* the session's own contribution to RIB and Adj-RIB-In is empty whenever it ends detached *)
@@ -273,6 +293,8 @@ Section Fold.
         * unfold rib_of, adjin_of. cbn. rewrite alist_get_set, N.eqb_refl.
           split; [apply rib_of_without_sess_self | reflexivity].
         * apply HP. reflexivity.
+      + apply andb_prop in Hok. destruct Hok as [Ha Hok]. subst att.
+        apply IH; [exact Hok | discriminate | exact Hend].
       + apply andb_prop in Hok. destruct Hok as [Ha Hok]. subst att.
         apply IH; [exact Hok | discriminate | exact Hend].
   Qed.
@@ -335,6 +357,10 @@ Section Fold.
       + (* ProcessedUpdate *)
         apply andb_prop in Hok. destruct Hok as [_ Hok].
         destruct (apply_update_frame c sid ann wd y) as (_ & E1 & E2 & E3 & E4 & _).
+        apply IH; [exact Hok | rewrite E1 | rewrite E2 | rewrite E3 | rewrite E4]; assumption.
+      + (* ProcessedPoison *)
+        apply andb_prop in Hok. destruct Hok as [_ Hok].
+        destruct (apply_poison_frame c sid rid by_asn v y) as (_ & E1 & E2 & E3 & E4 & _).
         apply IH; [exact Hok | rewrite E1 | rewrite E2 | rewrite E3 | rewrite E4]; assumption.
   Qed.
 End Fold.
@@ -537,4 +563,24 @@ Proof.
           adjin_of (apply_outs c (N.of_nat i) (s_att s) os y) (N.of_nat i) = []).
   apply apply_outs_stays_empty; [exact Hnoupd|].
   eapply si_empty; eassumption.
+Qed.
+
+(* Loop detection stays armed for every session that is Established, whatever the other sessions did:
+   its local AS - and its cluster id if it is a route reflector client - is contributing. Together with
+   [apply_poison] (a path carrying a contributing ASN / cluster id is hidden) this is "a flap of one
+   session withdraws exactly its own contribution, nothing else's". *)
+Lemma nfamN_pos : forall c, c_v4 c || c_v6 c = true -> 0 < nfamN c.
+Proof. intros c H. unfold nfamN, nfam. destruct (c_v4 c), (c_v6 c); cbn in *; try discriminate; lia. Qed.
+
+Theorem loop_detection_intact : forall cs es i c s,
+  nth_sess (y_sess (reach cs es)) i = Some (c, s) ->
+  s_st s = Established -> c_v4 c || c_v6 c = true ->
+  0 < rc_count (y_asn (reach cs es)) (c_las c) /\
+  (c_rr c = true -> 0 < rc_count (y_cid (reach cs es)) (cluster_of c)).
+Proof.
+  intros cs es i c s Hn Hst Hf. pose proof (reach_sinv cs es) as Hy.
+  destruct (si_inv _ Hy i c s Hn) as [Hatt _]. pose proof (proj2 Hatt Hst) as Ha.
+  pose proof (nfamN_pos c Hf) as Hp. split.
+  - rewrite (si_asn _ Hy), (total_split _ _ _ _ _ Hn). unfold asn_c. rewrite Ha, N.eqb_refl. cbn [andb]. lia.
+  - intro Hr. rewrite (si_cid _ Hy), (total_split _ _ _ _ _ Hn). unfold cid_c. rewrite Ha, Hr, N.eqb_refl. cbn [andb]. lia.
 Qed.
